@@ -13,6 +13,7 @@ request is served:
   ParameterNodeAtInstant.__init__           (kind childrenloop) the loop keeping the children that are not None at the instant
   Holder.get_array                          (kind holderlookup) the lookup through the memory and the disk store
   Simulation.purge_cache_of_invalid_values  (kind purge)        the empty-stack guard, the deletion loop, the reset of the marks
+  InMemoryStorage.get / put / delete        (kind storekey)     the key the dictionary is touched under (ETERNITY for an eternal store)
   Holder._set (tail)                        (kind holderstore)  `should_store_on_disk` and which store the branch writes to
 
 into `lean/OFCore/OFCore/GeneratedGuards.lean`.  `Props/C03Tie.lean` (and `C01Tie`, `C16Tie`) prove that the hand-written
@@ -605,6 +606,35 @@ def purge_shape(fn: ast.FunctionDef) -> str:
     return f"  if {cond} then s else\n  reset (inval.foldl deleteOne s)"
 
 
+def storage_key(fn: ast.FunctionDef) -> str:
+    """the statements of an `InMemoryStorage` method that re-bind `period` before the dictionary is touched:
+    `if self.is_eternal: period = periods.period(DateUnit.ETERNITY)` and `period = periods.period(period)`;
+    `norm` = `periods.period`, `eternity` = the ETERNITY period"""
+    expr = "p"
+    def rhs(n: ast.AST, cur: str) -> str:
+        src = ast.unparse(n)
+        if src in ("periods.period(DateUnit.ETERNITY)", "periods.period(periods.DateUnit.ETERNITY)", "periods.period(periods.ETERNITY)", "periods.period(ETERNITY)"):
+            return "(norm eternity)"
+        if src == "periods.period(period)":
+            return f"(norm {cur})"
+        raise NotTranslatable(f"`period` is bound to `{src[:50]}`")
+    seen = False
+    for s in fn.body:
+        if isinstance(s, ast.Assign) and len(s.targets) == 1 and ast.unparse(s.targets[0]) == "period":
+            expr = rhs(s.value, expr); seen = True
+        elif isinstance(s, ast.If) and ast.unparse(s.test) in ("self.is_eternal", "not self.is_eternal") and not s.orelse \
+                and len(s.body) == 1 and isinstance(s.body[0], ast.Assign) and ast.unparse(s.body[0].targets[0]) == "period":
+            inner = rhs(s.body[0].value, expr)
+            c = "eternal" if ast.unparse(s.test) == "self.is_eternal" else "(!eternal)"
+            expr = f"(if {c} then {inner} else {expr})"; seen = True
+        elif any(isinstance(n, ast.Name) and n.id == "period" and isinstance(n.ctx, ast.Store) for n in ast.walk(s)) \
+                and not (isinstance(s, ast.Assign) and ast.unparse(s.targets[0]) == "self._arrays"):
+            raise NotTranslatable(f"`period` is re-bound by `{ast.unparse(s).splitlines()[0][:50]}`")
+    if not seen:
+        raise NotTranslatable("`period` is never normalised")
+    return "  " + expr
+
+
 def located_test(fn: ast.FunctionDef, tr: Tr, marker: str) -> str:
     """the test of the one `if … : raise` whose source mentions `marker`, wherever it is nested in the function"""
     found = [n for n in ast.walk(fn) if isinstance(n, ast.If) and marker in ast.unparse(n.test) and not n.orelse
@@ -742,6 +772,9 @@ SPECS = [
     dict(name="purge_cache_of_invalid_values", module="GeneratedEngine", file=SIM, cls="Simulation", func="purge_cache_of_invalid_values",
          kind="purge", params="{S N I : Type} (stack : List N) (inval : List I) (deleteOne : S → I → S) (reset : S → S) (s : S)", typ="S",
          fallback="if (!stack.isEmpty) then s else\n  reset (inval.foldl deleteOne s)"),
+    *[dict(name=f"memory_storage_key_{f}", module="GeneratedEngine", file="openfisca_core/data_storage/in_memory_storage.py",
+           cls="InMemoryStorage", func=f, kind="storekey", params="{K : Type} (norm : K → K) (eternity : K) (eternal : Bool) (p : K)", typ="K",
+           fallback="(norm (if eternal then (norm eternity) else p))") for f in ("get", "put", "delete")],
     dict(name="period_text_finer_refused", file="openfisca_core/periods/helpers.py", cls=None, func="period", kind="located",
          marker="unit_weight(period.unit)", vocab={"period.unit": ("base", "unit"), "unit": ("u", "unit")},
          params="(u base : DUnit)", typ="Bool",
@@ -798,7 +831,7 @@ TIED_TO = {
     "period_size_in_years": ["C04"], "period_size_in_months": ["C04"], "period_size_in_days": ["C04"], "period_size_in_weeks": ["C04"],
     "period_size_in_weekdays": ["C04"], "period_get_subperiods": ["C04", "C03"], "period_text_finer_refused": ["C05"],
     "holderSet_raises": ["C03", "C16"], "holderSetInput_refuses": ["C16"], "parameter_get_at_instant": ["C06"], "node_at_instant_children": ["C06"],
-    "checkForCycle": ["C01", "C02"], "variable_get_formula": ["C01"], "purge_cache_of_invalid_values": ["C02"], "holder_get_array": ["C17"], "holder_set_to_disk": ["C17"], "rate_add_bracket": ["C08", "C09"], "amount_add_bracket": ["C08", "C09"],
+    "checkForCycle": ["C01", "C02"], "variable_get_formula": ["C01"], "purge_cache_of_invalid_values": ["C02"], "holder_get_array": ["C17"], "holder_set_to_disk": ["C17"], "memory_storage_key_get": ["C17"], "memory_storage_key_put": ["C17"], "memory_storage_key_delete": ["C17"], "rate_add_bracket": ["C08", "C09"], "amount_add_bracket": ["C08", "C09"],
 }
 
 
@@ -902,6 +935,11 @@ def translate(repo: str, module: str = "GeneratedGuards") -> tuple[str, dict]:
                 typ = sp["typ"]
                 doc = (f"`{sp['cls']}.{sp['func']}` ({sp['file']}): nothing while the stack is not empty; else every marked (variable, period) is "
                        "deleted through its holder (`deleteOne`), then the marks are reset (`reset`)")
+            elif sp["kind"] == "storekey":
+                body = storage_key(fn)
+                typ = sp["typ"]
+                doc = (f"`{sp['cls']}.{sp['func']}` ({sp['file']}): the key under which the dictionary is touched — the re-bindings of `period` "
+                       "in order; `norm` = `periods.period`, `eternity` = the ETERNITY period, `eternal` = `self.is_eternal`")
             elif sp["kind"] == "dispatch":
                 chain = dispatch_chain(fn, tr, sp["leaf"])
                 body = _dispatch_to_lean(chain)
